@@ -74,7 +74,7 @@ def run_case(case):
     cond = S.cond_inf()
     rgrid = np.array([0.0, 0.2, 0.45, 0.6, 0.9])
     q = np.asarray(bth.greville, dtype=float)
-    eta = [rgrid, q, np.arange(nz) * dz]
+    eta = [rgrid, q, -1.7 + np.arange(nz) * dz]        # zMin != 0
     sh, cf = _fd_weights(order)
     I = np.indices((nz, nq)).astype(float)
     dense = np.cos(1.3 * I[1] + 0.4) * (1 + 0.3 * I[0]) + 0.1 * I[0] ** 2 - 0.2 * I[0] * I[1]
